@@ -281,11 +281,11 @@ func main() {
 	f := gallina.ParseFlags()
 	meta := gallina.NewMeta("C33", f.Seed, f.Tier)
 	meta.Rule = "corpus of reproducers and typing edge cases first, then queries from a type-directed grammar generator (all of parser.Functions incl. experimental, aggregations, binary operators with matching modifiers, subqueries, @/offset, parentheses) with injected type errors (per-mille rate drawn per case from {0,0,0,15,40,120}); each runs as instant and as range query on one of 6 generated data sets in one of 3 engine configurations, then again concurrently; non-trivial = syntactically valid query with at least one operator/call/aggregation node; distinct by query string"
-	cf := &gallina.CaseFile{Dir: f.Out, Type: "case", PerShard: 700,
+	cf := &gallina.CaseFile{Dir: f.Out, Type: "case", PerShard: 2500,
 		Preamble: "From Coq Require Import List ZArith String.\nFrom Verif Require Import model.PromqlTyping corr.CorrC33.\nImport ListNotations.\nOpen Scope string_scope.\nOpen Scope Z_scope.\n",
 		Footer:   gallina.StdFooter}
 
-	nq := f.Count(900, 14000)
+	nq := f.Count(1500, 14000)
 	const nds = 6
 	dsets := make([]*dataset, nds)
 	for i := range dsets {
